@@ -40,7 +40,7 @@ def run(ctx, report):
     # clause 2
     n = 0
     for c in classes:
-        n += S.rule_immut_class(report, c, fresh_ctor_methods=("from_points", "from_extent"), clause="2")
+        n += S.rule_immut_class(report, c, fresh_ctor_methods=("from_points", "from_extent"), clause="2", index=ctx.index)
     if n < 40:
         raise AnalysisError(f"R-IMMUT analysed only {n} geometry methods (floor 40)")
     S.rule_no_foreign_geometry_store(report, idx, GEOM_ATTRS, GEOM, clause="2")
